@@ -25,6 +25,9 @@ type fault struct {
 
 func (f fault) String() string {
 	w := "drop"
+	if f.what == memnet.Fail {
+		return fmt.Sprintf("send-error(%s %s #%d)", f.dir, snref.TypeName(f.typ), f.n)
+	}
 	if f.what == memnet.Dup {
 		w = "dup"
 	}
@@ -77,6 +80,12 @@ func c17flows() []c17flow {
 // transmissions of its request gets through and the response sent for it gets through.
 func expectSuccess(fl c17flow, fs []fault, rc int) bool {
 	if !fl.needsAck {
+		// fire and forget: the call fails only if the socket refuses the (single) datagram
+		for _, f := range fs {
+			if f.dir == world.SNIn && f.typ == fl.steps[0][0] && f.n == 0 && f.what == memnet.Fail {
+				return false
+			}
+		}
 		return true
 	}
 	dropped := func(dir string, typ byte, n int) bool {
@@ -95,6 +104,14 @@ func expectSuccess(fl c17flow, fs []fault, rc int) bool {
 		}
 		return false
 	}
+	sendFails := func(typ byte, n int) bool {
+		for _, f := range fs {
+			if f.dir == world.SNIn && f.typ == typ && f.n == n && f.what == memnet.Fail {
+				return true
+			}
+		}
+		return false
+	}
 	reqCount := map[byte]int{}
 	respCount := map[byte]int{}
 	for _, st := range fl.steps {
@@ -102,6 +119,10 @@ func expectSuccess(fl c17flow, fs []fault, rc int) bool {
 		for tx := 0; tx <= rc && !ok; tx++ {
 			n := reqCount[st[0]]
 			reqCount[st[0]]++
+			if sendFails(st[0], n) {
+				// the socket refused the datagram: the call reports the error, nothing more is sent
+				return false
+			}
 			if dropped(world.SNIn, st[0], n) {
 				continue
 			}
@@ -145,6 +166,8 @@ func TestC17(t *testing.T) {
 					}
 				}
 				singles = append(singles, fault{world.SNIn, st[0], 0, memnet.Dup})
+				// a send error (the socket refuses the datagram) on the first transmission / the first retransmission
+				singles = append(singles, fault{world.SNIn, st[0], 0, memnet.Fail}, fault{world.SNIn, st[0], 1, memnet.Fail})
 				if st[1] != 0 {
 					singles = append(singles, fault{world.SNOut, st[1], 0, memnet.Dup}, fault{world.SNOut, st[1], 1, memnet.Dup})
 				}
@@ -155,6 +178,9 @@ func TestC17(t *testing.T) {
 			}
 			for i := range singles {
 				for j := i + 1; j < len(singles); j++ {
+					if singles[i].dir == singles[j].dir && singles[i].typ == singles[j].typ && singles[i].n == singles[j].n {
+						continue // two fates for one datagram
+					}
 					cases = append(cases, cs{fi, rc, []fault{singles[i], singles[j]}})
 				}
 			}
@@ -243,6 +269,27 @@ func TestC17(t *testing.T) {
 		} else if (callErr == nil) != want {
 			c.Violation(fmt.Sprintf("wrong-result|%s|want-success=%v|faults=%d", fl.name, want, nf), fmt.Sprintf("%s (RetryCount %d) under faults %v returned %v; the gateway's acknowledgement did%s reach the client within the retry budget", fl.name, cse.rc, cse.fs, callErr, map[bool]string{true: "", false: " not"}[want]), witness)
 		}
+		// "nil exactly when acknowledged", the other direction: a call that reported an error must not have been
+		// acknowledged all the same (the final acknowledgement of the flow delivered to the client after the call began)
+		if returned && callErr != nil && fl.needsAck {
+			lastAck := fl.steps[len(fl.steps)-1][1]
+			seenArmed := false
+			for _, e := range evs {
+				if e.Kind == world.Note && e.Note == "faults armed" {
+					seenArmed = true
+				}
+				if e.Kind == world.Note && e.Note == "teardown" {
+					break
+				}
+				if !seenArmed || e.Kind != world.SNOut || e.Fault != "" {
+					continue
+				}
+				if p, err := snref.Parse(e.B); err == nil && p != nil && p.Type == lastAck && (p.Type != snref.SUBACK && p.Type != snref.REGACK || p.RC == 0) {
+					c.Violation(fmt.Sprintf("error-although-acknowledged|%s", fl.name), fmt.Sprintf("%s returned %v, but the gateway's %s reached the client (faults %v)", fl.name, callErr, snref.TypeName(lastAck), cse.fs), witness)
+					break
+				}
+			}
+		}
 		// retransmissions of the client's requests after the faults were armed
 		armed := false
 		first := map[byte]*snref.Pkt{}
@@ -297,7 +344,7 @@ func TestC17(t *testing.T) {
 			r.Sample(map[string]interface{}{"flow": fl.name, "retry_count": cse.rc, "faults": fmt.Sprint(cse.fs), "expected_success": want, "returned": fmt.Sprint(callErr), "trace_tail": world.Strings(evs[max0(len(evs)-10):], 0)})
 		}
 	})
-	r.Finish(fmt.Sprintf("real client library against a scripted, always-answering gateway over a faulty in-memory link, virtual time. Flows: Publish QoS 1/2 (short and registered topic), Subscribe (string, wildcard), Register, Unsubscribe, Publish QoS 0/-1; RetryCount 1 and 2, RetryDelay 10 s. Fault plans per flow: none; every single drop of the first RetryCount+2 occurrences of each datagram type in each direction; single duplications; all pairs of those (quick: one third of the pairs, chosen by seed); runs of 1..RetryCount+1 consecutive losses of each request - %d cases; + %d PUBREL cases (inbound QoS 2: PUBREL first / duplicated / re-sent after the exchange finished, or held back while the application makes another call - Unsubscribe/Register/Subscribe of the very topic, Publish QoS 2, Ping - must each be answered by PUBCOMP with the same ID). Oracle: the call returns nil exactly when the reference simulation says an acknowledgement reached the client within RetryCount retransmissions per phase; every retransmission repeats the message ID (and content) and PUBLISH/SUBSCRIBE retransmissions carry DUP=1; at most RetryCount+1 transmissions.", nFlow, nPubrel), nil)
+	r.Finish(fmt.Sprintf("real client library against a scripted, always-answering gateway over a faulty in-memory link, virtual time. Flows: Publish QoS 1/2 (short and registered topic), Subscribe (string, wildcard), Register, Unsubscribe, Publish QoS 0/-1; RetryCount 1 and 2, RetryDelay 10 s. Fault plans per flow: none; every single drop of the first RetryCount+2 occurrences of each datagram type in each direction; single duplications; a send error (the socket refuses the datagram) on the first transmission or the first retransmission of each request; all pairs of those (quick: one third of the pairs, chosen by seed); runs of 1..RetryCount+1 consecutive losses of each request - %d cases; + %d PUBREL cases (inbound QoS 2: PUBREL first / duplicated / re-sent after the exchange finished, or held back while the application makes another call - Unsubscribe/Register/Subscribe of the very topic, Publish QoS 2, Ping - must each be answered by PUBCOMP with the same ID). Oracle: the call returns nil exactly when the reference simulation says an acknowledgement reached the client within RetryCount retransmissions per phase; every retransmission repeats the message ID (and content) and PUBLISH/SUBSCRIBE retransmissions carry DUP=1; at most RetryCount+1 transmissions; a call that returned an error was not acknowledged after all.", nFlow, nPubrel), nil)
 }
 
 // c17pubrel: broker-initiated QoS 2 towards the client library; PUBREL variants.
